@@ -1,5 +1,5 @@
 (* C07 — unknown-size masters end where EBML says; same tags as the known-size encoding.  Statements only. *)
-From Ebml Require Import Base Tools Spec Writer Reader Pure Encode Proofs.Tactics Proofs.SpecProofs Proofs.Globals Proofs.PureProofs Proofs.RoundTrip.
+From Ebml Require Import Base Tools Spec Writer Reader Pure Encode Proofs.Tactics Proofs.SpecProofs Proofs.Globals Proofs.PureProofs Proofs.RoundTrip Proofs.AuditMisc.
 
 (* which elements end an open unknown-size master: exactly a parent instance, a sibling, or a root element — by definition
    of is_ended_by; the closing loop over the stack of open masters closes exactly the innermost run of unknown-size masters
@@ -20,12 +20,41 @@ Theorem C07_global_closes_nothing : forall sp g, has_global (get_path sp g) = tr
   Forall (fun f => has_global (get_path sp (fst f)) = false /\ is_parent sp (fst f) g = false) stk -> count_ended sp g stk = O.
 Proof. exact global_closes_nothing. Qed.
 
-(* two conforming documents with the same tags read as the same tag sequence, whatever masters each encodes with unknown
-   size and whatever size widths each uses (PARTIAL: declared paths without global placeholders) *)
+(* two documents with the same tags read as the same tag sequence, whatever masters each encodes with unknown size and whatever size
+   widths each uses, PROVIDED BOTH conform ([conf c []] of f and of g: two separate hypotheses — conformance of one encoding does not
+   imply conformance of another, see C07_known_conf_counterexample; for the all-known re-encoding it does under [fits]:
+   C07_known_reencoding_partial) (PARTIAL: declared paths without global placeholders) *)
 Theorem C07_encoding_choices_irrelevant_partial : forall c f g, strict c -> c_buffered c = [] -> c_emit_eof c = true ->
   Forall (conf c []) f -> Forall (conf c []) g -> tags_forest f = tags_forest g ->
   map out_tag (p_run c (enc_forest f) [RAll]) = map out_tag (p_run c (enc_forest g) [RAll]).
 Proof. exact encoding_choices_irrelevant. Qed.
+
+(* the all-known re-encoding: [known_tree] gives every unknown-size master a known size in an 8-byte size field (as long as the
+   unknown-size marker, so no offset moves) and changes nothing else.  It conforms whenever the document does and the whole document
+   [fits]: its length is below 2^56-1 (an 8-byte size field can carry it) and within the configured maximum element size, if any ... *)
+Theorem C07_known_conf : forall c ids f, Forall (conf c ids) f -> fits c (flen f) -> Forall (conf c ids) (map known_tree f).
+Proof. exact known_forest_conf. Qed.
+
+(* ... it has the same tags and the same length ... *)
+Theorem C07_known_same_tags : forall f, tags_forest (map known_tree f) = tags_forest f /\ flen (map known_tree f) = flen f.
+Proof. intros f. split; [apply known_forest_tags|apply known_forest_flen]. Qed.
+
+(* ... so a conforming document that fits reads as the same tag sequence as its all-known re-encoding: ONE conformance hypothesis *)
+Theorem C07_known_reencoding_partial : forall c f, strict c -> c_buffered c = [] -> c_emit_eof c = true ->
+  Forall (conf c []) f -> fits c (flen f) ->
+  map out_tag (p_run c (enc_forest f) [RAll]) = map out_tag (p_run c (enc_forest (map known_tree f)) [RAll]).
+Proof. exact known_reencoding_same_tags. Qed.
+
+(* [fits] cannot be dropped: the maximum element size limits known sizes but not unknown-size masters.  With a maximum of 3 bytes, the
+   unknown-size Root { UInt 5 } conforms and reads fine; its all-known re-encoding (Root's body: 4 bytes) does not conform and is
+   rejected with an invalid-size error *)
+Example C07_known_conf_counterexample :
+  Forall (conf cx_c []) cx_doc /\ ~ Forall (conf cx_c []) (map known_tree cx_doc) /\
+  p_run cx_c (enc_forest cx_doc) [RAll] = [OItem (TStart 129) 0; OItem (TElem 16641 (VU 5)) 9; OItem (TEnd 129) 0; ONone] /\
+  p_run cx_c (enc_forest (map known_tree cx_doc)) [RAll] = [OErr (RInvalidSize 0 129 4)].
+Proof.
+  split; [apply known_conf_counterexample|]. split; [apply known_conf_counterexample|exact known_conf_counterexample_run].
+Qed.
 
 (* where each End comes out: right before the next element that is not inside the master, or at the end of input — this is
    the item sequence [items_forest] the reader is proved to yield *)
